@@ -19,7 +19,7 @@ meta = {'seed': name, 'breaks_property': prop, 'repo_head': subprocess.check_out
 
 
 def run(cmd, timeout=900, env=None, cwd=None):
-    e = dict(os.environ, PYTHONPATH=wt, PYTHONDONTWRITEBYTECODE='1')
+    e = dict(os.environ, PYTHONPATH=wt, PYTHONDONTWRITEBYTECODE='1', SEED_TREE=wt)
     if env:
         e.update(env)
     out = tempfile.NamedTemporaryFile('w+', delete=False)
@@ -41,7 +41,13 @@ def run(cmd, timeout=900, env=None, cwd=None):
 
 try:
     demo = os.path.join(src, 'demo.py')
-    shutil.copy(demo, os.path.join(wt, '_demo.py'))
+    # demos written by the sub-agents sometimes hard-code the path of the agent's own scratch worktree: make them tree-independent
+    import re
+    txt = open(demo).read()
+    txt2 = re.sub(r"(['\"])/tmp/seed/C\d\d(/?)\1", "__import__('os').environ.get('SEED_TREE', '/repo')", txt)
+    txt2 = re.sub(r"/tmp/seed/C\d\d", wt, txt2)
+    open(os.path.join(wt, '_demo.py'), 'w').write(txt2)
+    meta['demo_paths_rewritten'] = txt2 != txt
     rc0, o0 = run(['/venv/bin/python', '_demo.py'])
     meta['demo_on_original'] = {'exit': rc0, 'tail': o0[-300:]}
     ap = subprocess.run(['git', '-C', wt, 'apply', '--whitespace=nowarn', os.path.join(src, 'patch.diff')], capture_output=True, text=True)
@@ -70,8 +76,12 @@ try:
     dst = os.path.join('/verif/seeded', name)
     os.makedirs(dst, exist_ok=True)
     for f in ('patch.diff', 'demo.py', 'notes.md'):
-        if os.path.exists(os.path.join(src, f)):
+        if os.path.exists(os.path.join(src, f)) and os.path.abspath(src) != os.path.abspath(dst):
             shutil.copy(os.path.join(src, f), os.path.join(dst, f))
+    if meta.get('demo_paths_rewritten'):
+        t = open(os.path.join(dst, 'demo.py')).read()
+        t = re.sub(r"(['\"])/tmp/seed/C\d\d(/?)\1", "__import__('os').environ.get('SEED_TREE', '/repo')", t)
+        open(os.path.join(dst, 'demo.py'), 'w').write(t)
     meta['valid'] = bool(rc0 == 0 and rc1 not in (0, 'timeout') and meta['patch_applies'] and meta['compiles'])
     json.dump(meta, open(os.path.join(dst, 'meta.json'), 'w'), indent=1)
     print(json.dumps({k: meta[k] for k in ('seed', 'valid', 'patch_applies')}), {c: v['detected'] for c, v in meta['checks'].items()},
